@@ -266,6 +266,7 @@ def c12_cases(tier):
                       ("union", "pub union E { a: u8 }"), ("empty-enum", "pub enum E {}")]:
         for rl in ("#[repr(i8)]", "#[repr(C)]", "", "#[repr(transparent)]"):
             cases.append(("kind:%s:%s" % (lab, rl), c12_case(body, rl)))
+            cases.append(("kind:%s:%s:none" % (lab, rl), c12_case(body, rl, feats="none")))
     # fields (4 variants so that the second and third are neither minimum nor maximum), under every feature set
     for fs in C12_FEATURE_SETS:
         ok_cases.append(("base-4-%s" % fs, c12_case("pub enum E { A, B, C, D }", feats=fs)))
@@ -311,16 +312,20 @@ def c12_cases(tier):
                 cases.append(expr_case(e2_, 2, "expr2:%s(%s)@2" % (wl, lab)))
     # a macro_rules fragment of kind expr holding a non-literal, used as discriminant inside a generated enum
     cases.append(("expr:macro-fragment", "#![allow(warnings)]\nuse enum_tools::EnumTools;\nmacro_rules! mk { ($e:expr) => { #[derive(Clone, Copy, EnumTools)] #[enum_tools(%s)] #[repr(i8)] pub enum E { A = $e, B = 50 } } }\nmk!(1 + 1);\n" % C12_FEATURES))
-    # values outside i64
-    for r in ("u64", "i128", "u128"):
-        cases.append(("value:i64max+1:%s" % r, c12_case("pub enum E { A = 1, B = 9223372036854775808 }", "#[repr(%s)]" % r)))
-        cases.append(("value:implicit-after-i64max:%s" % r, c12_case("pub enum E { A = 9223372036854775807, B }", "#[repr(%s)]" % r)))
-        cases.append(("value:implicit-after-i64max-3:%s" % r, c12_case("pub enum E { Z = 0, A = 9223372036854775807, B, C }", "#[repr(%s)]" % r)))
-        cases.append(("value:hex-i64max+1:%s" % r, c12_case("pub enum E { A = 0x8000_0000_0000_0000 }", "#[repr(%s)]" % r)))
-        cases.append(("value:u64max:%s" % r, c12_case("pub enum E { A = 18446744073709551615 }", "#[repr(%s)]" % r)))
-    cases.append(("value:i64min-1:i128", c12_case("pub enum E { A = -9223372036854775809, B = 0 }", "#[repr(i128)]")))
-    cases.append(("value:neg-big:i128", c12_case("pub enum E { A = -170141183460469231731687303715884105728 }", "#[repr(i128)]")))
-    cases.append(("value:big:u128", c12_case("pub enum E { A = 340282366920938463463374607431768211455 }", "#[repr(u128)]")))
+    # values outside i64 — under every feature set: a discriminant the derive cannot read must not simply be dropped (with a feature
+    # set that never names a single variant rustc itself would not notice a missing one)
+    for fs in C12_FEATURE_SETS:
+        for r in ("u64", "i128", "u128"):
+            cases.append(("value:i64max+1:%s:%s" % (r, fs), c12_case("pub enum E { A = 1, B = 9223372036854775808 }", "#[repr(%s)]" % r, feats=fs)))
+            cases.append(("value:i64max+1-middle:%s:%s" % (r, fs), c12_case("pub enum E { A = 1, B = 9223372036854775808, C = 3 }", "#[repr(%s)]" % r, feats=fs)))
+            cases.append(("value:implicit-after-i64max:%s:%s" % (r, fs), c12_case("pub enum E { A = 9223372036854775807, B }", "#[repr(%s)]" % r, feats=fs)))
+            cases.append(("value:implicit-after-i64max-3:%s:%s" % (r, fs), c12_case("pub enum E { Z = 0, A = 9223372036854775807, B, C }", "#[repr(%s)]" % r, feats=fs)))
+            cases.append(("value:hex-i64max+1:%s:%s" % (r, fs), c12_case("pub enum E { A = 0x8000_0000_0000_0000 }", "#[repr(%s)]" % r, feats=fs)))
+            cases.append(("value:u64max:%s:%s" % (r, fs), c12_case("pub enum E { Z = 0, A = 18446744073709551615 }", "#[repr(%s)]" % r, feats=fs)))
+        cases.append(("value:i64min-1:i128:%s" % fs, c12_case("pub enum E { A = -9223372036854775809, B = 0 }", "#[repr(i128)]", feats=fs)))
+        cases.append(("value:i64min-1-last:i128:%s" % fs, c12_case("pub enum E { B = 0, C = 1, A = -9223372036854775809 }", "#[repr(i128)]", feats=fs)))
+        cases.append(("value:neg-big:i128:%s" % fs, c12_case("pub enum E { Z = 0, A = -170141183460469231731687303715884105728 }", "#[repr(i128)]", feats=fs)))
+        cases.append(("value:big:u128:%s" % fs, c12_case("pub enum E { Z = 0, A = 340282366920938463463374607431768211455 }", "#[repr(u128)]", feats=fs)))
     # repr forms
     body = "pub enum E { A = 10, B = 11, C = 12 }"
     for lab, rl in [("missing", ""), ("twice-same", "#[repr(i8)]\n#[repr(i8)]"), ("twice-diff", "#[repr(i8)]\n#[repr(u8)]"), ("C", "#[repr(C)]"),
@@ -331,6 +336,7 @@ def c12_cases(tier):
                     ("i8,align", "#[repr(i8, align(1))]"), ("str", "#[repr(\"u8\")]"), ("eq", "#[repr = \"u8\"]"), ("i8+C", "#[repr(i8)]\n#[repr(C)]"),
                     ("u1", "#[repr(u1)]"), ("u256", "#[repr(u256)]"), ("i24", "#[repr(i24)]"), ("r#u8", "#[repr(r#u8)]")]:
         cases.append(("repr:%s" % lab, c12_case(body, rl)))
+        cases.append(("repr:%s:none" % lab, c12_case(body, rl, feats="none")))
     # too many variants
     if tier == "thorough":
         for n in (65535, 65536):
